@@ -310,6 +310,13 @@ def prop_for(props, key):
     return props[key]
 
 
+DOCUMENTED_UNSUPPORTED = {"$defs", "if", "then", "else", "unevaluatedItems", "unevaluatedProperties"}
+
+
+def has_unsupported(schema):
+    return isinstance(schema, dict) and bool(set(schema) & DOCUMENTED_UNSUPPORTED)
+
+
 def rbd(x):
     from statham.schema.validation import base
     if x is True:
